@@ -1,108 +1,239 @@
 (* C03 proofs, part 3: what Griffe's printer writes for each node, as a string equation over its children; the lambda
-   parameter loop; and the main theorem: outside the known-gap families str(build e) is the reference printer's text. *)
+   parameter loops (before and after the repair); and the main theorem: outside the known-gap families that the repairs
+   present in the tree leave, str(build e) is the reference printer's text.  For every combination [fx] of the repairs. *)
 From Coq Require Import List ZArith String Ascii Bool Arith Lia.
 From Verif Require Import Lib.Sexp Model.C03_ops Gen.C03_tables Model.C03_expr Model.C03_spec
   Proofs.C03_ind Proofs.C03_iter Proofs.C03_rule.
 Import ListNotations.
 Open Scope list_scope. Open Scope nat_scope. Open Scope string_scope.
 
-Ltac rnorm :=
-  unfold render at 1; autorewrite with iter_eq; cbn [app];
-  repeat (rewrite ?render_items_app, ?render_items_cons_str, ?render_ijoin, ?map_render_yb, ?render_yb, ?render_items_nil, ?sapp_nil_r).
+Section Render.
+Variable fx : fixes.
+Variable env : nenv.
+Local Notation build := (C03_expr.build fx env).
+Local Notation render := (C03_expr.render fx).
+Local Notation iterate := (C03_expr.iterate fx).
+Local Notation yb := (C03_iter.yb fx).
+Local Notation rtext := (C03_iter.rtext fx).
+Local Notation gaps := (C03_spec.gaps fx).
+Local Notation need := (C03_spec.need fx).
 
-(* ---------- Griffe's printer, node by node ---------- *)
+Ltac rnorm :=
+  unfold C03_expr.render;
+  rewrite ?it_Str, ?it_Name, ?it_Attribute, ?it_BinOp, ?it_BoolOp, ?it_Call, ?it_Compare, ?it_Comprehension,
+    ?it_Dict, ?it_DictComp, ?it_Formatted, ?it_GeneratorExp, ?it_IfExp, ?it_JoinedStr, ?it_Keyword, ?it_VarPositional,
+    ?it_VarKeyword, ?it_Lambda, ?it_List, ?it_ListComp, ?it_NamedExpr, ?it_Set, ?it_SetComp, ?it_Slice, ?it_Subscript,
+    ?it_Tuple, ?it_UnaryOp, ?it_Yield, ?it_YieldFrom; cbn [app];
+  repeat (rewrite ?render_items_app, ?render_items_cons_str, ?render_ijoin, ?map_render_yb, ?render_yb, ?render_wrap, ?render_items_nil, ?sapp_nil_r).
+
+(* ---------- Griffe's printer, node by node (rtext req c: the text of operand c in a slot requiring precedence req) ---------- *)
 Lemma render_Str s : render (GStr s) = s.
 Proof. rnorm. rewrite ?sapp_assoc. reflexivity. Qed.
 Lemma render_Name n p : render (GName n p) = n.
-Proof. unfold render, render_items. simpl. apply sapp_nil_r. Qed.
-Lemma render_Attribute vs : render (GAttribute vs) = sjoin "." (map render vs).
-Proof. rnorm. rewrite ?sapp_assoc. reflexivity. Qed.
-Lemma render_BinOp l op r : render (GBinOp l op r) = render l ++ " " ++ op ++ " " ++ render r.
+Proof. unfold C03_expr.render, render_items. simpl. apply sapp_nil_r. Qed.
+Lemma render_BinOp l op r : render (GBinOp l op r) = rtext (gbin_lreq op) l ++ " " ++ op ++ " " ++ rtext (gbin_rreq op) r.
 Proof. rnorm. rewrite !sapp_assoc. reflexivity. Qed.
-Lemma render_BoolOp op vs : render (GBoolOp op vs) = sjoin (" " ++ op ++ " ") (map render vs).
+Lemma render_BoolOp op vs : render (GBoolOp op vs) = sjoin (" " ++ op ++ " ") (map (rtext (S (gprec (GBoolOp op vs)))) vs).
 Proof. rnorm. rewrite ?sapp_assoc. reflexivity. Qed.
-Lemma render_Call f args : render (GCall f args) = render f ++ "(" ++ sjoin ", " (map render args) ++ ")".
+Lemma render_IfExp b t o : render (GIfExp b t o) = rtext P_OR b ++ " if " ++ rtext P_OR t ++ " else " ++ rtext P_TEST o.
 Proof. rnorm. rewrite ?sapp_assoc. reflexivity. Qed.
-Lemma render_Formatted v : render (GFormatted v) = "{" ++ render v ++ "}".
-Proof. rnorm. rewrite ?sapp_assoc. reflexivity. Qed.
-Lemma render_GeneratorExp e gens : render (GGeneratorExp e gens) = render e ++ " " ++ sjoin " " (map render gens).
-Proof. rnorm. rewrite ?sapp_assoc. reflexivity. Qed.
-Lemma render_IfExp b t o : render (GIfExp b t o) = render b ++ " if " ++ render t ++ " else " ++ render o.
-Proof. rnorm. rewrite ?sapp_assoc. reflexivity. Qed.
-Lemma render_JoinedStr vs : render (GJoinedStr vs) = "f'" ++ sconcat (map render vs) ++ "'".
+Lemma render_JoinedStr vs : render (GJoinedStr vs) = "f'" ++ sconcat (map (rtext P_NONE) vs) ++ "'".
 Proof. rnorm. rewrite sjoin_empty_sep. reflexivity. Qed.
-Lemma render_Keyword n v : render (GKeyword n v) = n ++ "=" ++ render v.
+Lemma render_Keyword n v : render (GKeyword n v) = n ++ "=" ++ rtext P_TEST v.
 Proof. rnorm. rewrite ?sapp_assoc. reflexivity. Qed.
-Lemma render_VarPositional v : render (GVarPositional v) = "*" ++ render v.
+Lemma render_VarPositional v : render (GVarPositional v) = "*" ++ rtext P_BOR v.
 Proof. rnorm. rewrite ?sapp_assoc. reflexivity. Qed.
-Lemma render_VarKeyword v : render (GVarKeyword v) = "**" ++ render v.
+Lemma render_VarKeyword v : render (GVarKeyword v) = "**" ++ rtext P_TEST v.
 Proof. rnorm. rewrite ?sapp_assoc. reflexivity. Qed.
-Lemma render_List es : render (GList es) = "[" ++ sjoin ", " (map render es) ++ "]".
+Lemma render_List es : render (GList es) = "[" ++ sjoin ", " (map (rtext P_TEST) es) ++ "]".
 Proof. rnorm. rewrite ?sapp_assoc. reflexivity. Qed.
-Lemma render_Set es : render (GSet es) = "{" ++ sjoin ", " (map render es) ++ "}".
+Lemma render_Set es : render (GSet es) = "{" ++ sjoin ", " (map (rtext P_TEST) es) ++ "}".
 Proof. rnorm. rewrite ?sapp_assoc. reflexivity. Qed.
-Lemma render_ListComp e gens : render (GListComp e gens) = "[" ++ render e ++ " " ++ sjoin " " (map render gens) ++ "]".
+Lemma render_ListComp e gens : render (GListComp e gens) = "[" ++ rtext P_TEST e ++ " " ++ sjoin " " (map (rtext P_NONE) gens) ++ "]".
 Proof. rnorm. rewrite ?sapp_assoc. reflexivity. Qed.
-Lemma render_SetComp e gens : render (GSetComp e gens) = "{" ++ render e ++ " " ++ sjoin " " (map render gens) ++ "}".
+Lemma render_SetComp e gens : render (GSetComp e gens) = "{" ++ rtext P_TEST e ++ " " ++ sjoin " " (map (rtext P_NONE) gens) ++ "}".
 Proof. rnorm. rewrite ?sapp_assoc. reflexivity. Qed.
-Lemma render_NamedExpr t v : render (GNamedExpr t v) = "(" ++ render t ++ " := " ++ render v ++ ")".
+Lemma render_GeneratorExp e gens :
+  render (GGeneratorExp e gens) = paren_if (fx_genexp fx) (rtext P_TEST e ++ " " ++ sjoin " " (map (rtext P_NONE) gens)).
 Proof. rnorm. rewrite ?sapp_assoc. reflexivity. Qed.
-Lemma render_Subscript l s : render (GSubscript l s) = render l ++ "[" ++ render s ++ "]".
+Lemma render_NamedExpr t v : render (GNamedExpr t v) = "(" ++ rtext P_ATOM t ++ " := " ++ rtext P_TEST v ++ ")".
 Proof. rnorm. rewrite ?sapp_assoc. reflexivity. Qed.
-Lemma render_UnaryOp op v : render (GUnaryOp op v) = op ++ render v.
+Lemma render_Subscript l s : render (GSubscript l s) = rtext P_ATOM l ++ "[" ++ rtext P_TEST s ++ "]".
 Proof. rnorm. rewrite ?sapp_assoc. reflexivity. Qed.
-Lemma render_YieldFrom v : render (GYieldFrom v) = "yield from " ++ render v.
+Lemma render_UnaryOp op v : render (GUnaryOp op v) = op ++ rtext (gprec (GUnaryOp op v)) v.
 Proof. rnorm. rewrite ?sapp_assoc. reflexivity. Qed.
-Lemma render_Yield v : render (GYield v) = "yield" ++ (match v with Some c => " " ++ render c | None => "" end).
+Lemma render_YieldFrom v : render (GYieldFrom v) = "yield from " ++ rtext P_TEST v.
+Proof. rnorm. rewrite ?sapp_assoc. reflexivity. Qed.
+Lemma render_Yield v : render (GYield v) = "yield" ++ (match v with Some c => " " ++ rtext P_TEST c | None => "" end).
 Proof. destruct v; rnorm; reflexivity. Qed.
 Lemma render_Slice lo up st :
   render (GSlice lo up st) =
-  optstr render lo ++ ":" ++ optstr render up ++ (match st with Some s => ":" ++ render s | None => "" end).
+  optstr (rtext P_TEST) lo ++ ":" ++ optstr (rtext P_TEST) up ++ (match st with Some s => ":" ++ rtext P_TEST s | None => "" end).
 Proof. destruct lo, up, st; rnorm; unfold yob, optstr; rewrite ?render_yb, ?render_items_nil; rewrite ?sapp_assoc; reflexivity. Qed.
 Lemma render_Tuple es implicit :
   render (GTuple es implicit) =
-  let body := sjoin ", " (map render es) ++ (match es with [_] => "," | _ => "" end) in
-  if implicit then body else "(" ++ body ++ ")".
-Proof. destruct implicit, es as [|? [|? ?]]; rnorm; rewrite ?sapp_assoc; reflexivity. Qed.
+  let body := sjoin ", " (map (rtext P_TEST) es) ++ (match es with [_] => "," | _ => "" end) in
+  if tuple_par fx es implicit then "(" ++ body ++ ")" else body.
+Proof. destruct (tuple_par fx es implicit) eqn:E, es as [|? [|? ?]]; rnorm; rewrite ?E; rnorm; rewrite ?sapp_assoc; reflexivity. Qed.
 Lemma render_Comprehension t it conds a :
   render (GComprehension t it conds a) =
-  (if a then "async " else "") ++ "for " ++ render t ++ " in " ++ render it
-  ++ (if is_nil conds then "" else " if " ++ sjoin " if " (map render conds)).
+  (if a then "async " else "") ++ "for " ++ rtext P_BOR t ++ " in " ++ rtext P_OR it
+  ++ (if is_nil conds then "" else " if " ++ sjoin " if " (map (rtext P_OR) conds)).
 Proof. destruct a, conds; rnorm; cbn [is_nil]; rnorm; rewrite ?sapp_assoc; reflexivity. Qed.
-Lemma render_Dict items :
-  render (GDict items) =
-  "{" ++ sjoin ", " (map (fun kv => (match fst kv with None => "**" | Some k => render k ++ ": " end) ++ render (snd kv)) items) ++ "}".
+Definition dtxt (kv : option gexpr * gexpr) : string :=
+  match fst kv with None => "**" ++ rtext P_BOR (snd kv) | Some k => rtext P_TEST k ++ ": " ++ rtext P_TEST (snd kv) end.
+Lemma render_Dict items : render (GDict items) = "{" ++ sjoin ", " (map dtxt items) ++ "}".
 Proof.
-  rnorm. rewrite map_map. f_equal. f_equal. f_equal. apply map_ext. intros [[k|] v]; unfold dict_item; simpl fst; simpl snd; rnorm;
+  rnorm. rewrite map_map. f_equal. f_equal. f_equal. apply map_ext. intros [[k|] v]; unfold dict_item, dtxt; cbn [fst snd]; rnorm;
     rewrite ?sapp_assoc; reflexivity.
 Qed.
 Lemma render_DictComp k v gens :
-  render (GDictComp k v gens) = "{" ++ render k ++ ": " ++ render v ++ " " ++ sjoin " " (map render gens) ++ "}".
+  render (GDictComp k v gens) = "{" ++ rtext P_TEST k ++ ": " ++ rtext P_TEST v ++ " " ++ sjoin " " (map (rtext P_NONE) gens) ++ "}".
 Proof. rnorm. rewrite ?sapp_assoc. reflexivity. Qed.
 Lemma render_Lambda params body :
   render (GLambda params body) =
   "lambda" ++ (if is_nil params then "" else " ")
-  ++ render_items (lam_params (map (conv_param true) params) false false false) ++ ": " ++ render body.
+  ++ render_items (lam_items fx (map (conv_param fx true) params)) ++ ": " ++ rtext P_TEST body.
 Proof. destruct params; rnorm; reflexivity. Qed.
+
+(* a slot that requires nothing never adds parentheses *)
+Lemma rtext_none g : rtext P_NONE g = render g.
+Proof. unfold C03_iter.rtext, ypar. destruct g; try reflexivity; cbn [Nat.ltb Nat.leb]; rewrite andb_false_r; reflexivity. Qed.
 
 (* comparison chains: with as many operators as comparators the zip has no filler *)
 Lemma render_cmp_zip ops (gs : list gexpr) :
   List.length ops = List.length gs ->
-  map render_items (cmp_zip ops (map (yb true) gs)) = map (fun oc => fst oc ++ " " ++ snd oc) (combine ops (map render gs)).
+  map render_items (cmp_zip ops (map (yb true P_BOR) gs)) = map (fun oc => fst oc ++ " " ++ snd oc) (combine ops (map (rtext P_BOR) gs)).
 Proof.
   revert gs. induction ops as [|o ops IH]; intros [|g gs] H; try discriminate; [reflexivity|].
-  simpl in H. injection H as H. cbn [cmp_zip map combine fst snd]. rewrite IH by assumption. f_equal. rnorm. reflexivity.
+  simpl in H. injection H as H. cbn [cmp_zip map combine fst snd]. rewrite IH by assumption. f_equal.
+  rewrite render_items_app, render_yb. unfold C03_iter.rtext. rewrite !render_items_cons_str, render_items_nil, sapp_nil_r, !sapp_assoc. reflexivity.
 Qed.
 Lemma render_Compare l ops cs :
   List.length ops = List.length cs ->
-  render (GCompare l ops cs) = render l ++ " " ++ sjoin " " (map (fun oc => fst oc ++ " " ++ snd oc) (combine ops (map render cs))).
+  render (GCompare l ops cs) = rtext P_BOR l ++ " " ++ sjoin " " (map (fun oc => fst oc ++ " " ++ snd oc) (combine ops (map (rtext P_BOR) cs))).
 Proof. intros H. rnorm. rewrite render_cmp_zip by assumption. reflexivity. Qed.
+
+(* ---------- attribute chains ---------- *)
+Lemma sjoin_snoc sep (l : list string) x : l <> [] -> sjoin sep (l ++ [x]) = (sjoin sep l ++ sep ++ x)%string.
+Proof.
+  induction l as [|y l IH]; [congruence|]. intros _. destruct l as [|z l].
+  - reflexivity.
+  - change ((y :: z :: l) ++ [x])%list with (y :: ((z :: l) ++ [x]))%list.
+    rewrite (sjoin_cons sep y ((z :: l) ++ [x])%list) by discriminate. rewrite IH by discriminate.
+    rewrite (sjoin_cons sep y (z :: l)) by discriminate. rewrite !sapp_assoc. reflexivity.
+Qed.
+
+Definition attr_head (g : gexpr) : string :=
+  match g with
+  | GAttribute _ => render g
+  | GStr s => if fx_intattr fx && is_decimal s then "(" ++ s ++ ")" else s
+  | _ => rtext P_ATOM g
+  end.
+
+Lemma render_Attribute vs : render (GAttribute vs) = sjoin "." (map render_items (attr_parts fx true vs)).
+Proof. rnorm. reflexivity. Qed.
+
+Lemma rtext_name_atom n p : rtext P_ATOM (GName n p) = n.
+Proof. unfold C03_iter.rtext, ypar. cbn [gprec]. rewrite andb_false_r. cbn [paren_if]. apply render_Name. Qed.
+
+Lemma attr_parts_snoc vs x : vs <> [] -> attr_parts fx true (vs ++ [x]) = (attr_parts fx true vs ++ [yb true P_ATOM x])%list.
+Proof.
+  unfold attr_parts, attr_parts_gen. destruct vs as [|v rest]; [congruence|]. intros _.
+  destruct v; rewrite <- ?app_comm_cons; cbn [map]; rewrite ?map_app; reflexivity.
+Qed.
+
+Lemma render_attach g a : gnonempty g -> render (attach_attr g a) = (attr_head g ++ "." ++ a)%string.
+Proof.
+  intros H.
+  assert (Hother : forall g0, render (GAttribute [g0; GName a ParNone]) = render (GAttribute [g0; GName a ParNone])) by reflexivity.
+  destruct g; unfold attach_attr, attr_head;
+    try (rewrite render_Attribute; unfold attr_parts, attr_parts_gen; cbn [map sjoin]; rewrite !render_yb;
+         fold (rtext P_ATOM (GName a ParNone)); rewrite ?rtext_name_atom; reflexivity).
+  - (* GStr *) rewrite render_Attribute. unfold attr_parts, attr_parts_gen. cbn [map sjoin]. rewrite render_yb.
+    fold (rtext P_ATOM (GName a ParStr)). rewrite rtext_name_atom.
+    destruct (fx_intattr fx && is_decimal s); cbn [render_items map item_text sconcat fold_right]; rewrite ?sapp_nil_r, ?sapp_assoc; reflexivity.
+  - (* GName *) rewrite render_Attribute. unfold attr_parts, attr_parts_gen. cbn [map sjoin]. rewrite !render_yb.
+    fold (rtext P_ATOM (GName a (ParName (gname_path (GName name par))))). rewrite rtext_name_atom. reflexivity.
+  - (* GAttribute *) destruct vs as [|v0 vs]; [contradiction|].
+    rewrite !render_Attribute, attr_parts_snoc by discriminate. rewrite map_app. cbn [map]. rewrite render_yb.
+    fold (rtext P_ATOM (GName a (ParName (gname_path (last (v0 :: vs) (GStr "")))))). rewrite rtext_name_atom.
+    apply sjoin_snoc. unfold attr_parts, attr_parts_gen. destruct v0; discriminate.
+Qed.
+
+(* ---------- calls ---------- *)
+Lemma render_Call f args : render (GCall f args) = rtext P_ATOM f ++ render_items (call_args fx true args).
+Proof. rnorm. reflexivity. Qed.
+
+Lemma call_args_general args :
+  match args with [GGeneratorExp _ _] => False | _ => True end ->
+  render_items (call_args fx true args) = "(" ++ sjoin ", " (map (rtext P_TEST) args) ++ ")".
+Proof.
+  intros H. unfold call_args, call_args_gen.
+  assert (Hgen : render_items ([IStr "("] ++ ijoin [IStr ", "] (map (yb true P_TEST) args) ++ [IStr ")"])
+                 = "(" ++ sjoin ", " (map (rtext P_TEST) args) ++ ")").
+  { rewrite !render_items_app, render_ijoin, map_render_yb. reflexivity. }
+  destruct args as [|a r]; [exact Hgen|]. destruct a; try exact Hgen. destruct r; [contradiction|exact Hgen].
+Qed.
+
+Definition genexp_inner (e : gexpr) (gens : list gexpr) : string :=
+  rtext P_TEST e ++ " " ++ sjoin " " (map (rtext P_NONE) gens).
+
+Lemma call_args_genexp e gens :
+  render_items (call_args fx true [GGeneratorExp e gens]) = "(" ++ genexp_inner e gens ++ ")".
+Proof.
+  unfold call_args, call_args_gen. destruct (fx_genexp fx) eqn:E.
+  - rewrite render_yb. unfold ypar. cbn [gprec]. rewrite andb_false_r. cbn [paren_if]. rewrite render_GeneratorExp, E. reflexivity.
+  - rewrite !render_items_app, render_yb. unfold ypar. cbn [gprec]. rewrite andb_false_r. cbn [paren_if].
+    rewrite render_GeneratorExp, E. reflexivity.
+Qed.
+
+(* ---------- replacement fields ---------- *)
+Lemma conv_items_text conv : render_items (if (conv =? -1)%Z then [] else [IStr (conv_text conv)]) = conv_text conv.
+Proof.
+  unfold conv_text. destruct (conv =? -1)%Z; [reflexivity|]. cbn [render_items map item_text sconcat fold_right]. apply sapp_nil_r.
+Qed.
+
+Definition spec_text (spec : option gexpr) : string :=
+  match spec with
+  | Some (GJoinedStr vs) => ":" ++ sconcat (map (rtext P_NONE) vs)
+  | Some o => ":" ++ rtext P_NONE o
+  | None => ""
+  end.
+
+Lemma spec_items_text spec : render_items (spec_items fx true spec) = spec_text spec.
+Proof.
+  unfold spec_items, spec_items_gen, spec_text. destruct spec as [o|]; [|reflexivity].
+  assert (Ho : render_items (IStr ":" :: yb true P_NONE o) = ":" ++ rtext P_NONE o) by (rewrite render_items_cons_str, render_yb; reflexivity).
+  destruct o; try exact Ho.
+  rewrite render_items_cons_str, render_ijoin, map_render_yb, sjoin_empty_sep. reflexivity.
+Qed.
+
+Definition glue_text (v : gexpr) : string :=
+  if fx_fglue fx && Nat.leb P_OR (gprec v) && starts_brace (render v) then " " else "".
+
+Lemma glue_items_text v : render_items (glue fx v) = glue_text v.
+Proof.
+  unfold glue, glue_text.
+  assert (E : render_items (match v with GStr s => [IStr s] | _ => iterate true v end) = render v) by (destruct v; reflexivity).
+  rewrite E. destruct (_ && _); reflexivity.
+Qed.
+
+Lemma render_Formatted v conv spec :
+  render (GFormatted v conv spec) = "{" ++ glue_text v ++ rtext P_OR v ++ conv_text conv ++ spec_text spec ++ "}".
+Proof.
+  unfold C03_expr.render. rewrite it_Formatted. rewrite !render_items_app, glue_items_text, render_yb, conv_items_text, spec_items_text.
+  reflexivity.
+Qed.
+
+Lemma render_yb' req c : render_items (yb true req c) = rtext req c.
+Proof. apply render_yb. Qed.
 
 (* ---------- the lambda parameter loop ---------- *)
 Definition gpar := (string * pkind * option gexpr)%type.
 Definition pkindof (p : gpar) : pkind := snd (fst p).
 Definition gptxt (p : gpar) : string :=
-  fst (fst p) ++ (match snd p with Some d => if is_variadic (pkindof p) then "" else "=" ++ render d | None => "" end).
+  fst (fst p) ++ (match snd p with Some d => if is_variadic (pkindof p) then "" else "=" ++ rtext P_TEST d | None => "" end).
 
 (* one text chunk per parameter; the pos_or_kw flag of the loop never influences the output *)
 Fixpoint lam_chunks (ps : list gpar) (f1 f3 : bool) : list string :=
@@ -117,10 +248,10 @@ Fixpoint lam_chunks (ps : list gpar) (f1 f3 : bool) : list string :=
   end.
 
 Lemma lam_params_chunks ps f1 f2 f3 :
-  render_items (lam_params (map (conv_param true) ps) f1 f2 f3) = sjoin ", " (lam_chunks ps f1 f3).
+  render_items (lam_params (map (conv_param fx true) ps) f1 f2 f3) = sjoin ", " (lam_chunks ps f1 f3).
 Proof.
   revert f1 f2 f3. induction ps as [|[[n k] d] ps IH]; intros f1 f2 f3; [reflexivity|].
-  cbn [map conv_param lam_params lam_chunks fst snd pkindof].
+  cbn [map C03_iter.conv_param lam_params lam_chunks fst snd pkindof].
   rewrite is_nil_map.
   assert (Hj : forall x, sjoin ", " (x :: lam_chunks ps
             (if negb (is_po k) && match k with PO => true | _ => f1 end then false else match k with PO => true | _ => f1 end)
@@ -131,7 +262,7 @@ Proof.
   { intros x. destruct ps as [|q ps]; [simpl; rewrite sapp_nil_r; reflexivity|]. reflexivity. }
   rewrite Hj. unfold gptxt. cbn [fst snd pkindof].
   destruct k, f1, f3, d as [dd|]; cbn [is_po is_variadic negb andb];
-    repeat (rewrite ?render_items_app, ?render_items_cons_str, ?render_items_nil, ?render_yb, ?IH, ?sapp_nil_r);
+    repeat (rewrite ?render_items_app, ?render_items_cons_str, ?render_items_nil, ?render_yb', ?IH, ?sapp_nil_r);
     destruct (is_nil ps); repeat (rewrite ?render_items_app, ?render_items_cons_str, ?render_items_nil, ?IH, ?sapp_nil_r);
     rewrite ?sapp_assoc; cbn [String.append]; rewrite ?sapp_assoc; reflexivity.
 Qed.
@@ -236,17 +367,165 @@ Proof.
     rewrite Htail. rewrite <- app_assoc. reflexivity.
 Qed.
 
+
+(* ---------- the repaired loop: no hypothesis on the shape of the signature ---------- *)
+Fixpoint lam_chunks2 (ps : list gpar) (f1 f3 : bool) : list string :=
+  match ps with
+  | [] => if f1 then ["/"] else []
+  | p :: rest =>
+      let k := pkindof p in
+      let pre := match k with VP => "*" | VK => "**" | KO => if f3 then "" else "*, " | _ => "" end in
+      ((if negb (is_po k) && f1 then "/, " else "") ++ pre ++ gptxt p)
+        :: lam_chunks2 rest (is_po k) (match k with VP | KO => true | _ => f3 end)
+  end.
+
+Lemma lam_chunks2_nonnil p ps f1 f3 : lam_chunks2 (p :: ps) f1 f3 <> [].
+Proof. discriminate. Qed.
+
+Definition chunk2 (p : gpar) (f1 f3 : bool) : string :=
+  let k := pkindof p in
+  (if negb (is_po k) && f1 then "/, " else "")
+  ++ (match k with VP => "*" | VK => "**" | KO => if f3 then "" else "*, " | _ => "" end) ++ gptxt p.
+Definition f3next (k : pkind) (f3 : bool) : bool := match k with VP | KO => true | _ => f3 end.
+
+Lemma lam_chunks2_cons p rest f1 f3 :
+  lam_chunks2 (p :: rest) f1 f3 = chunk2 p f1 f3 :: lam_chunks2 rest (is_po (pkindof p)) (f3next (pkindof p) f3).
+Proof. reflexivity. Qed.
+
+(* one parameter of the repaired loop, then the rest *)
+Lemma lam_params2_cons p rest f1 f3 :
+  render_items (lam_params2 (conv_param fx true p :: rest) f1 f3) =
+  chunk2 p f1 f3 ++ (if is_nil rest then "" else ", ") ++ render_items (lam_params2 rest (is_po (pkindof p)) (f3next (pkindof p) f3)).
+Proof.
+  destruct p as [[n k] d]. unfold chunk2, gptxt, f3next. cbn [C03_iter.conv_param lam_params2 fst snd pkindof].
+  destruct k, f1, f3, d as [dd|]; cbn [is_po is_variadic negb andb];
+    repeat (rewrite ?render_items_app, ?render_items_cons_str, ?render_items_nil, ?render_yb', ?sapp_nil_r);
+    destruct (is_nil rest); repeat (rewrite ?render_items_app, ?render_items_cons_str, ?render_items_nil, ?sapp_nil_r);
+    rewrite ?sapp_assoc; cbn [String.append]; rewrite ?sapp_assoc; reflexivity.
+Qed.
+
+Lemma lam_params2_chunks p ps f1 f3 :
+  render_items (lam_params2 (map (conv_param fx true) (p :: ps)) f1 f3) = sjoin ", " (lam_chunks2 (p :: ps) f1 f3).
+Proof.
+  revert p f1 f3. induction ps as [|q ps IH]; intros p f1 f3.
+  - cbn [map]. rewrite lam_params2_cons, lam_chunks2_cons. cbn [is_nil lam_params2 lam_chunks2].
+    destruct (is_po (pkindof p)); cbn [render_items map item_text sconcat fold_right sjoin String.append];
+      rewrite ?sapp_nil_r; reflexivity.
+  - change (map (conv_param fx true) (p :: q :: ps)) with (conv_param fx true p :: map (conv_param fx true) (q :: ps)).
+    rewrite lam_params2_cons, lam_chunks2_cons. change (is_nil (map (conv_param fx true) (q :: ps))) with false.
+    rewrite IH. rewrite (sjoin_cons ", " _ (lam_chunks2 (q :: ps) _ _)) by apply lam_chunks2_nonnil. reflexivity.
+Qed.
+
+Lemma chunks2_po l rest f1 f3 :
+  allk PO l -> lam_chunks2 (l ++ rest) f1 f3 = (map gptxt l ++ lam_chunks2 rest (if is_nil l then f1 else true) f3)%list.
+Proof.
+  intros H. revert f1. induction H as [|p l Hp _ IH]; intros f1; [reflexivity|].
+  cbn [app lam_chunks2 map is_nil]. rewrite Hp. cbn [is_po negb andb String.append]. rewrite IH. destruct l; reflexivity.
+Qed.
+
+Definition no_po (l : list gpar) : Prop := Forall (fun p => is_po (pkindof p) = false) l.
+
+(* the slash is an entry of its own *)
+Lemma chunks2_slash xs rest f1 f3 :
+  no_po rest ->
+  sjoin ", " (xs ++ lam_chunks2 rest f1 f3)%list = sjoin ", " (xs ++ (if f1 then ["/"] else []) ++ lam_chunks2 rest false f3)%list.
+Proof.
+  intros H. destruct f1; [|reflexivity]. destruct H as [|p rest Hp _]; [reflexivity|].
+  cbn [lam_chunks2]. rewrite Hp. cbn [negb andb app].
+  change ("/, " ++ ?x) with ("/" ++ ", " ++ x). rewrite sjoin_glue. reflexivity.
+Qed.
+
+Lemma chunks2_pk l rest f3 :
+  allk PK l -> lam_chunks2 (l ++ rest) false f3 = (map gptxt l ++ lam_chunks2 rest false f3)%list.
+Proof.
+  induction 1 as [|p l Hp _ IH]; [reflexivity|].
+  cbn [app lam_chunks2 map]. rewrite Hp. cbn [is_po negb andb String.append]. rewrite IH. reflexivity.
+Qed.
+
+Lemma chunks2_ko1 l rest :
+  allk KO l -> lam_chunks2 (l ++ rest) false true = (map gptxt l ++ lam_chunks2 rest false true)%list.
+Proof.
+  induction 1 as [|p l Hp _ IH]; [reflexivity|].
+  cbn [app lam_chunks2 map]. rewrite Hp. cbn [is_po negb andb String.append]. rewrite IH. reflexivity.
+Qed.
+
+Lemma chunks2_vk vk f3 : lam_chunks2 (vkl vk) false f3 = match vk with Some n => [("**" ++ n)%string] | None => [] end.
+Proof. destruct vk; cbn [vkl lam_chunks2 pkindof fst snd is_po negb andb gptxt is_variadic String.append]; rewrite ?sapp_nil_r; reflexivity. Qed.
+
+Lemma allk_no_po k l : is_po k = false -> allk k l -> no_po l.
+Proof. intros Hk H. eapply Forall_impl; [|exact H]. intros p Hp. simpl in Hp. rewrite Hp. exact Hk. Qed.
+
+Lemma no_po_app a b : no_po a -> no_po b -> no_po (a ++ b).
+Proof. intros. apply Forall_app. split; assumption. Qed.
+
+Lemma lambda_chunks2_entries a b vp d vk :
+  allk PO a -> allk PK b -> allk KO d ->
+  sjoin ", " (lam_chunks2 (a ++ b ++ vpl vp ++ d ++ vkl vk) false false) = sjoin ", " (lam_entries a b vp d vk).
+Proof.
+  intros Ha Hb Hd. rewrite (chunks2_po a _ false false Ha).
+  assert (Hnp : no_po (b ++ vpl vp ++ d ++ vkl vk)).
+  { apply no_po_app; [apply (allk_no_po PK); [reflexivity|assumption]|].
+    apply no_po_app; [destruct vp; repeat constructor|].
+    apply no_po_app; [apply (allk_no_po KO); [reflexivity|assumption]|destruct vk; repeat constructor]. }
+  rewrite (chunks2_slash (map gptxt a) _ _ false Hnp).
+  replace (if if is_nil a then false else true then ["/"] else []) with (if is_nil a then @nil string else ["/"]) by (destruct a; reflexivity).
+  rewrite (chunks2_pk b _ false Hb). unfold lam_entries.
+  (* the tail after the positional parameters *)
+  assert (Htail : forall xs,
+    sjoin ", " (xs ++ lam_chunks2 (vpl vp ++ d ++ vkl vk) false false)%list =
+    sjoin ", " (xs ++ (match vp with Some n => [("*" ++ n)%string] | None => if is_nil d then [] else ["*"] end)
+                   ++ map gptxt d ++ (match vk with Some n => [("**" ++ n)%string] | None => [] end))%list).
+  { intros xs. destruct vp as [n|]; cbn [vpl app].
+    - cbn [lam_chunks2 pkindof fst snd is_po negb andb gptxt is_variadic String.append]. rewrite sapp_nil_r.
+      rewrite (chunks2_ko1 d _ Hd), chunks2_vk. reflexivity.
+    - destruct Hd as [|q d Hq Hd].
+      + cbn [app is_nil map]. rewrite chunks2_vk. reflexivity.
+      + cbn [app lam_chunks2 is_nil map]. rewrite Hq. cbn [is_po negb andb String.append].
+        rewrite (chunks2_ko1 d _ Hd), chunks2_vk.
+        exact (sjoin_glue ", " "*" (gptxt q) xs _). }
+  rewrite !app_assoc. rewrite <- !app_assoc.
+  replace (map gptxt a ++ (if is_nil a then [] else ["/"]) ++ map gptxt b ++ lam_chunks2 (vpl vp ++ d ++ vkl vk) false false)%list
+    with ((map gptxt a ++ (if is_nil a then [] else ["/"]) ++ map gptxt b) ++ lam_chunks2 (vpl vp ++ d ++ vkl vk) false false)%list
+    by (rewrite <- !app_assoc; reflexivity).
+  rewrite Htail. rewrite <- !app_assoc. reflexivity.
+Qed.
+
+
 (* ---------- the main induction ---------- *)
 Open Scope list_scope. Open Scope nat_scope.
 
-Definition gnonempty (g : gexpr) : Prop := match g with GAttribute [] => False | _ => True end.
+(* the model's operand requirements are the grammar's *)
+Lemma gbinop_prec_spec o : gbinop_prec (spec_binop o) = binop_prec o. Proof. destruct o; reflexivity. Qed.
+Lemma gbin_lreq_spec o : gbin_lreq (spec_binop o) = binop_lreq o. Proof. destruct o; reflexivity. Qed.
+Lemma gbin_rreq_spec o : gbin_rreq (spec_binop o) = binop_rreq o. Proof. destruct o; reflexivity. Qed.
+Lemma binop_lreq_le o : Nat.leb (binop_lreq o) P_ATOM = true. Proof. destruct o; reflexivity. Qed.
+Lemma binop_rreq_le o : Nat.leb (binop_rreq o) P_ATOM = true. Proof. destruct o; reflexivity. Qed.
+Lemma gboolop_prec_spec o vs : gprec (GBoolOp (spec_boolop o) vs) = boolop_prec o. Proof. destruct o; reflexivity. Qed.
+Lemma gunop_prec_spec o v : gprec (GUnaryOp (spec_unop o) v) = unop_prec o. Proof. destruct o; reflexivity. Qed.
+Lemma boolop_req_le o : Nat.leb (S (boolop_prec o)) P_ATOM = true. Proof. destruct o; reflexivity. Qed.
+Lemma unop_prec_le o : Nat.leb (unop_prec o) P_ATOM = true. Proof. destruct o; reflexivity. Qed.
+
+(* an integer literal is stored as its decimal digits, and nothing else is *)
+Definition int_lit_inv (g : gexpr) (e : pyexpr) : Prop :=
+  match g with GStr s => is_decimal s = is_int_lit e | _ => is_int_lit e = false end.
 
 Definition RenderP (e : pyexpr) : Prop :=
   forall direct isub ijoin ifmt,
     isub = direct -> wfk KExpr e = true -> gaps direct isub ijoin ifmt e = [] ->
-    exists g, build (mkCtx NoParse isub ijoin ifmt) e = Some g /\ gnonempty g /\ render g = rprint direct e.
+    exists g, build (mkCtx NoParse isub ijoin ifmt) e = Some g /\ render g = rprint direct e
+              /\ gprec g = prec e /\ int_lit_inv g e.
 
-Definition RenderP' (e : pyexpr) : Prop := RenderP e /\ kidsP RenderP e.
+Fixpoint kidsR (Q : pyexpr -> Prop) (e : pyexpr) : Prop :=
+  match e with
+  | PDictItem k v => OptP Q k /\ Q v
+  | PParam _ d => OptP Q d
+  | PGeneratorExp e1 gens => Q e1 /\ Forall Q gens
+  | PJoinedStr vs => Forall Q vs
+  | PParsed p => kidsR Q p
+  | _ => True
+  end.
+
+Definition RenderP' (e : pyexpr) : Prop := RenderP e /\ kidsR RenderP e.
 
 Ltac split_nil :=
   repeat match goal with
@@ -255,16 +534,28 @@ Ltac split_nil :=
          | H : (if ?b then _ :: _ else []) = [] |- _ => destruct b eqn:?; [discriminate H|clear H]
          end.
 
-Lemma need_nil req c : need req c = [] -> (prec c <? req) = false.
-Proof. unfold need. destruct (prec c <? req); [discriminate|reflexivity]. Qed.
+(* the text of a built operand in a slot of precedence req *)
+Lemma rtext_at g c req X :
+  render g = X -> gprec g = prec c -> Nat.leb req P_ATOM = true -> need req c = [] ->
+  rtext req g = paren_if (prec c <? req) X.
+Proof.
+  intros HR HP Hle Hn. unfold C03_iter.rtext. rewrite HR. f_equal. unfold ypar. rewrite HP.
+  assert (Hatom : forall s, g = GStr s -> (prec c <? req) = false).
+  { intros s ->. cbn [gprec] in HP. rewrite <- HP. apply Nat.ltb_ge. apply Nat.leb_le. exact Hle. }
+  unfold C03_spec.need, need_top in Hn.
+  destruct (fx_prec fx).
+  - destruct g; try reflexivity. symmetry. eapply Hatom. reflexivity.
+  - destruct (prec c <? req); [discriminate Hn|]. destruct g; reflexivity.
+Qed.
 
 Lemma child_at c req ijoin ifmt :
-  RenderP c -> wfk KExpr c = true -> need req c = [] -> gaps false false ijoin ifmt c = [] ->
-  exists g, build (mkCtx NoParse false ijoin ifmt) c = Some g /\ gnonempty g
-            /\ render g = paren_if (prec c <? req) (rprint false c).
+  RenderP c -> wfk KExpr c = true -> Nat.leb req P_ATOM = true -> need req c = [] -> gaps false false ijoin ifmt c = [] ->
+  exists g, build (mkCtx NoParse false ijoin ifmt) c = Some g
+            /\ rtext req g = paren_if (prec c <? req) (rprint false c)
+            /\ render g = rprint false c /\ gprec g = prec c /\ int_lit_inv g c.
 Proof.
-  intros H Hw Hn Hg. rewrite (need_nil _ _ Hn). cbn [paren_if].
-  apply H; try assumption. reflexivity.
+  intros H Hw Hle Hn Hg. destruct (H false false ijoin ifmt eq_refl Hw Hg) as [g [B [R [P I]]]].
+  exists g. repeat split; try assumption. apply rtext_at; assumption.
 Qed.
 
 Lemma mapo_render {B} (bld : pyexpr -> option B) (txt : B -> string) (G : pyexpr -> list nat) (R : pyexpr -> string) vs :
@@ -277,66 +568,63 @@ Proof.
   exists (g :: gs). simpl. rewrite Bg, Bgs, Tg, Tgs. split; reflexivity.
 Qed.
 
+Lemma fproj vs : Forall RenderP' vs -> Forall RenderP vs.
+Proof. intros H. eapply Forall_impl; [|exact H]. intros x [Hx _]. exact Hx. Qed.
+
 Lemma children_at vs req ijoin ifmt :
-  Forall RenderP' vs -> forallb (wfk KExpr) vs = true ->
+  Forall RenderP vs -> forallb (wfk KExpr) vs = true -> Nat.leb req P_ATOM = true ->
   flat_map (fun c => need req c ++ gaps false false ijoin ifmt c) vs = [] ->
   exists gs, mapo (build (mkCtx NoParse false ijoin ifmt)) vs = Some gs /\
-             map render gs = map (fun c => paren_if (prec c <? req) (rprint false c)) vs.
+             map (rtext req) gs = map (fun c => paren_if (prec c <? req) (rprint false c)) vs.
 Proof.
-  intros H Hw. apply mapo_render. apply forallb_Forall in Hw.
-  eapply Forall_impl2; [|exact H|exact Hw]. intros c [Hc _] Hwc Hg. simpl in Hwc.
+  intros H Hw Hle. apply mapo_render. apply forallb_Forall in Hw.
+  eapply Forall_impl2; [|exact H|exact Hw]. intros c Hc Hwc Hg. simpl in Hwc.
   apply app_eq_nil in Hg. destruct Hg as [Hn Hg].
-  destruct (child_at c req ijoin ifmt Hc Hwc Hn Hg) as [g [Bg [_ Rg]]]. exists g. split; assumption.
+  destruct (child_at c req ijoin ifmt Hc Hwc Hle Hn Hg) as [g [Bg [Tg _]]]. exists g. split; assumption.
 Qed.
 
 Lemma children_plain vs ijoin ifmt :
-  Forall RenderP' vs -> forallb (wfk KExpr) vs = true ->
+  Forall RenderP vs -> forallb (wfk KExpr) vs = true ->
   flat_map (gaps false false ijoin ifmt) vs = [] ->
-  exists gs, mapo (build (mkCtx NoParse false ijoin ifmt)) vs = Some gs /\ map render gs = map (rprint false) vs.
+  exists gs, mapo (build (mkCtx NoParse false ijoin ifmt)) vs = Some gs /\ map (rtext P_NONE) gs = map (rprint false) vs.
 Proof.
   intros H Hw. apply mapo_render. apply forallb_Forall in Hw.
-  eapply Forall_impl2; [|exact H|exact Hw]. intros c [Hc _] Hwc Hg. simpl in Hwc.
-  destruct (Hc false false ijoin ifmt eq_refl Hwc Hg) as [g [Bg [_ Rg]]]. exists g. split; assumption.
+  eapply Forall_impl2; [|exact H|exact Hw]. intros c Hc Hwc Hg. simpl in Hwc.
+  destruct (Hc false false ijoin ifmt eq_refl Hwc Hg) as [g [Bg [Rg _]]]. exists g. split; [assumption|]. rewrite rtext_none. exact Rg.
 Qed.
 
 Lemma child_opt o req ijoin ifmt :
-  OptP RenderP' o -> (match o with Some c => wfk KExpr c | None => true end) = true ->
+  OptP RenderP' o -> (match o with Some c => wfk KExpr c | None => true end) = true -> Nat.leb req P_ATOM = true ->
   (match o with Some c => need req c ++ gaps false false ijoin ifmt c | None => [] end) = [] ->
   exists go, optb (build (mkCtx NoParse false ijoin ifmt)) o = Some go /\
              match o, go with
-             | Some c, Some g => render g = paren_if (prec c <? req) (rprint false c)
+             | Some c, Some g => rtext req g = paren_if (prec c <? req) (rprint false c)
              | None, None => True
              | _, _ => False
              end.
 Proof.
-  destruct o as [c|]; simpl; intros H Hw Hg; [|exists None; split; [reflexivity|exact I]].
+  destruct o as [c|]; simpl; intros H Hw Hle Hg; [|exists None; split; [reflexivity|exact I]].
   apply app_eq_nil in Hg. destruct Hg as [Hn Hg]. destruct H as [H _].
-  destruct (child_at c req ijoin ifmt H Hw Hn Hg) as [g [Bg [_ Rg]]].
-  exists (Some g). rewrite Bg. split; [reflexivity|exact Rg].
+  destruct (child_at c req ijoin ifmt H Hw Hle Hn Hg) as [g [Bg [Tg _]]].
+  exists (Some g). rewrite Bg. split; [reflexivity|exact Tg].
 Qed.
 
-Lemma esc_braces_id s : has_brace s = false -> esc_braces s = s.
+Lemma fesc_id s : has_brace s = false -> has_unsafe s = false -> fesc s = s.
 Proof.
-  induction s as [|c s IH]; [reflexivity|]. cbn [has_brace esc_braces]. intros H.
-  apply orb_false_iff in H. destruct H as [H1 H2]. rewrite H1. rewrite IH by assumption. reflexivity.
-Qed.
-
-Lemma sjoin_snoc sep (l : list string) x : l <> [] -> sjoin sep (l ++ [x]) = (sjoin sep l ++ sep ++ x)%string.
-Proof.
-  induction l as [|y l IH]; [congruence|]. intros _. destruct l as [|z l].
-  - reflexivity.
-  - change ((y :: z :: l) ++ [x]) with (y :: ((z :: l) ++ [x])).
-    rewrite (sjoin_cons sep y ((z :: l) ++ [x])) by discriminate. rewrite IH by discriminate.
-    rewrite (sjoin_cons sep y (z :: l)) by discriminate. rewrite !sapp_assoc. reflexivity.
-Qed.
-
-Lemma render_attach g a : gnonempty g -> render (attach_attr g a) = (render g ++ "." ++ a)%string /\ gnonempty (attach_attr g a).
-Proof.
-  intros H. destruct g; try (split; [unfold attach_attr; rewrite render_Attribute; cbn [map sjoin]; rewrite !render_Name; reflexivity|exact I]).
-  (* GAttribute *)
-  unfold attach_attr. split.
-  - rewrite !render_Attribute, map_app. cbn [map]. rewrite render_Name. apply sjoin_snoc. destruct vs; [contradiction|discriminate].
-  - destruct vs; [contradiction|exact I].
+  induction s as [|c s IH]; [reflexivity|]. cbn [has_brace has_unsafe fesc]. intros Hb Hu.
+  apply orb_false_iff in Hb. destruct Hb as [Hb1 Hb]. apply orb_false_iff in Hb1. destruct Hb1 as [Hl Hr].
+  apply orb_false_iff in Hu. destruct Hu as [Hu Hs]. apply orb_false_iff in Hu. destruct Hu as [Hu H92].
+  apply orb_false_iff in Hu. destruct Hu as [Hu H39]. apply orb_false_iff in Hu. destruct Hu as [H32 H127].
+  rewrite IH by assumption. unfold fesc_char. rewrite H92, H39.
+  assert (E1 : (nat_of_ascii c =? 10) = false) by (apply Nat.eqb_neq; intros E; rewrite E in H32; discriminate H32).
+  assert (E2 : (nat_of_ascii c =? 13) = false) by (apply Nat.eqb_neq; intros E; rewrite E in H32; discriminate H32).
+  assert (E3 : (nat_of_ascii c =? 9) = false) by (apply Nat.eqb_neq; intros E; rewrite E in H32; discriminate H32).
+  rewrite E1, E2, E3, H32, H127. cbn [orb].
+  assert (E4 : (nat_of_ascii c =? 123) = false).
+  { apply Nat.eqb_neq. intros E. assert (c = "{"%char) by (rewrite <- (ascii_nat_embedding c), E; reflexivity). subst c. discriminate Hl. }
+  assert (E5 : (nat_of_ascii c =? 125) = false).
+  { apply Nat.eqb_neq. intros E. assert (c = "}"%char) by (rewrite <- (ascii_nat_embedding c), E; reflexivity). subst c. discriminate Hr. }
+  rewrite E4, E5. reflexivity.
 Qed.
 
 Lemma combine_map_l {A B C} (f : A -> B) (l : list A) (r : list C) :
@@ -365,8 +653,6 @@ Definition build_item (c : bctx) (it : pyexpr) : option (option gexpr * gexpr) :
       end
   | _ => None
   end.
-Definition dtxt (kv : option gexpr * gexpr) : string :=
-  ((match fst kv with None => "**" | Some k => render k ++ ": " end) ++ render (snd kv))%string.
 
 Lemma dict_items_at items ijoin ifmt :
   Forall RenderP' items -> forallb (wfk KItem) items = true -> flat_map (gaps false false ijoin ifmt) items = [] ->
@@ -375,15 +661,15 @@ Proof.
   intros H Hw. apply mapo_render. apply forallb_Forall in Hw.
   eapply Forall_impl2; [|exact H|exact Hw]. intros c [_ Hk] Hwc Hg.
   destruct c as [| | | | | | | | | | | | | | | | | |k v| | | | | | | | | | | | | | |]; try (cbn in Hwc; discriminate Hwc).
-  cbn in Hwc. split_andb. destruct Hk as [Hk Hv]. cbn [gaps] in Hg.
+  cbn in Hwc. split_andb. destruct Hk as [Hk Hv]. cbn [C03_spec.gaps] in Hg.
   destruct k as [key|]; split_nil; simpl in Hk.
-  - destruct (child_at key _ _ _ Hk ltac:(assumption) ltac:(eassumption) ltac:(eassumption)) as [gk [Bk [_ Rk]]].
-    destruct (child_at v _ _ _ Hv ltac:(assumption) ltac:(eassumption) ltac:(eassumption)) as [gv [Bv [_ Rv]]].
+  - destruct (child_at key P_TEST _ _ Hk ltac:(assumption) eq_refl ltac:(eassumption) ltac:(eassumption)) as [gk [Bk [Tk _]]].
+    destruct (child_at v P_TEST _ _ Hv ltac:(assumption) eq_refl ltac:(eassumption) ltac:(eassumption)) as [gv [Bv [Tv _]]].
     exists (Some gk, gv). cbn [build_item]. rewrite Bk, Bv. split; [reflexivity|].
-    unfold dtxt. cbn [fst snd rprint]. rewrite Rk, Rv, sapp_assoc. reflexivity.
-  - destruct (child_at v _ _ _ Hv ltac:(assumption) ltac:(eassumption) ltac:(eassumption)) as [gv [Bv [_ Rv]]].
+    unfold dtxt. cbn [fst snd rprint]. rewrite Tk, Tv. reflexivity.
+  - destruct (child_at v P_BOR _ _ Hv ltac:(assumption) eq_refl ltac:(eassumption) ltac:(eassumption)) as [gv [Bv [Tv _]]].
     exists (None, gv). cbn [build_item]. rewrite Bv. split; [reflexivity|].
-    unfold dtxt. cbn [fst snd rprint]. rewrite Rv. reflexivity.
+    unfold dtxt. cbn [fst snd rprint]. rewrite Tv. reflexivity.
 Qed.
 
 Definition par_of (k : pkind) (p : pyexpr) : option gpar :=
@@ -408,11 +694,11 @@ Proof.
   intros Hk H Hw. apply mapo_render. apply forallb_Forall in Hw.
   eapply Forall_impl2; [|exact H|exact Hw]. intros c [_ Hd] Hwc Hg.
   destruct c as [| | | | | | | | | | | | | | | | | | | | |pn d| | | | | | | | | | | |]; try (cbn in Hwc; discriminate Hwc).
-  cbn in Hwc. cbn [gaps] in Hg. simpl in Hd. destruct d as [dd|].
+  cbn in Hwc. cbn [C03_spec.gaps] in Hg. simpl in Hd. destruct d as [dd|].
   - split_nil. simpl in Hd.
-    destruct (child_at dd _ _ _ Hd ltac:(assumption) ltac:(eassumption) ltac:(eassumption)) as [gd [Bd [_ Rd]]].
+    destruct (child_at dd P_TEST _ _ Hd ltac:(assumption) eq_refl ltac:(eassumption) ltac:(eassumption)) as [gd [Bd [Td _]]].
     eexists. cbn [par_of]. unfold ctx0. rewrite Bd. split; [reflexivity|].
-    unfold gptxt, pkindof. cbn [fst snd rprint]. rewrite Hk, Rd. reflexivity.
+    unfold gptxt, pkindof. cbn [fst snd rprint]. rewrite Hk, Td. reflexivity.
   - eexists. cbn [par_of]. split; [reflexivity|]. reflexivity.
 Qed.
 
@@ -422,179 +708,338 @@ Proof. destruct l, r; simpl; intros H; try reflexivity; discriminate. Qed.
 Lemma lam_entries_nil a b vp d vk : is_nil (lam_entries a b vp d vk) = is_nil (a ++ b ++ vpl vp ++ d ++ vkl vk).
 Proof. unfold lam_entries. destruct a, b, vp, d, vk; reflexivity. Qed.
 
+(* the parameter list of a lambda, whichever loop the tree has *)
+Lemma lam_items_entries a b vp d vk :
+  allk PO a -> allk PK b -> allk KO d ->
+  (fx_lambda fx = false -> (negb (is_nil a) && is_nil b) || (match vp with Some _ => negb (is_nil d) | None => false end) = false) ->
+  render_items (lam_items fx (map (conv_param fx true) (a ++ b ++ vpl vp ++ d ++ vkl vk))) = sjoin ", " (lam_entries a b vp d vk).
+Proof.
+  intros Ha Hb Hd Hg. unfold lam_items. destruct (fx_lambda fx).
+  - destruct (a ++ b ++ vpl vp ++ d ++ vkl vk) as [|p ps] eqn:E.
+    + assert (En : is_nil (lam_entries a b vp d vk) = true) by (rewrite lam_entries_nil, E; reflexivity).
+      destruct (lam_entries a b vp d vk); [reflexivity|discriminate En].
+    + rewrite lam_params2_chunks. rewrite <- (lambda_chunks2_entries a b vp d vk Ha Hb Hd).
+      f_equal. f_equal. symmetry. exact E.
+  - rewrite lam_params_chunks. apply lambda_chunks_entries; try assumption. apply Hg. reflexivity.
+Qed.
+
+(* the pieces of an f-string or of a format spec *)
+Definition fpart_txt (c : pyexpr) : string := match c with PStr _ raw _ => fesc raw | _ => rprint false c end.
+Definition fpart_gaps (nfmt : bool) (c : pyexpr) : list nat :=
+  match c with
+  | PStr _ raw _ => if nfmt || (negb (fx_fesc fx) && (has_brace raw || has_unsafe raw)) then [G_FSTRING] else []
+  | PParsed _ => [G_FSTRING]
+  | _ => gaps false false true nfmt c
+  end.
+
+Lemma fparts_at vs nfmt :
+  Forall RenderP vs -> forallb (wfk KExpr) vs = true -> flat_map (fpart_gaps nfmt) vs = [] ->
+  exists gs, mapo (build (mkCtx NoParse false true nfmt)) vs = Some gs /\ map (rtext P_NONE) gs = map fpart_txt vs.
+Proof.
+  intros H Hw. apply mapo_render. apply forallb_Forall in Hw.
+  eapply Forall_impl2; [|exact H|exact Hw]. intros c Hc Hwc Hgc. simpl in Hwc.
+  destruct c; try (destruct (Hc false false true nfmt eq_refl Hwc Hgc) as [g [Bg [Rg _]]]; exists g; split; [assumption|rewrite rtext_none; exact Rg]).
+  - (* literal text *) cbn [fpart_gaps] in Hgc. destruct nfmt; [discriminate Hgc|]. cbn [orb] in Hgc.
+    cbn [C03_expr.build enter keeps_insub mapped node_builder injoin infmt andb negb].
+    eexists; split; [reflexivity|]. rewrite rtext_none, render_Str. cbn [fpart_txt].
+    destruct (fx_fesc fx); [reflexivity|]. cbn [negb andb] in Hgc.
+    destruct (has_brace raw || has_unsafe raw) eqn:E; [discriminate Hgc|]. apply orb_false_iff in E. destruct E.
+    symmetry. apply fesc_id; assumption.
+  - (* PParsed *) discriminate Hgc.
+Qed.
+
+(* a generator expression (possibly written as a string annotation): what is inside its parentheses *)
+Lemma genexp_at : forall a, is_genexp_src a = true -> kidsR RenderP a ->
+  forall direct isub ijoin ifmt, wfk KExpr a = true ->
+  (if fx_genexp fx then gaps direct isub ijoin ifmt a else tl (gaps direct isub ijoin ifmt a)) = [] ->
+  exists e' gens', build (mkCtx NoParse isub ijoin ifmt) a = Some (GGeneratorExp e' gens')
+                   /\ ("(" ++ genexp_inner e' gens' ++ ")")%string = rprint direct a.
+Proof.
+  induction a; intros Hs Hk direct isub ijoin ifmt Hw Hg; try discriminate Hs.
+  - (* PParsed *) cbn [is_genexp_src] in Hs. cbn [kidsR] in Hk. cbn in Hw. cbn [C03_spec.gaps] in Hg.
+    destruct (IHa Hs Hk direct isub false false Hw Hg) as [e' [gens' [B T]]].
+    exists e', gens'. split; [exact B|exact T].
+  - (* PGeneratorExp *) cbn [kidsR] in Hk. destruct Hk as [Hke Hkg]. cbn in Hw. split_andb.
+    assert (Hg' : (need P_TEST a ++ gaps false false ijoin ifmt a) ++ flat_map (gaps false false ijoin ifmt) gens = []).
+    { cbn [C03_spec.gaps] in Hg. destruct (fx_genexp fx); cbn [app tl] in Hg; exact Hg. }
+    apply app_eq_nil in Hg'. destruct Hg' as [Hge Hgg]. apply app_eq_nil in Hge. destruct Hge as [Hne Hge].
+    destruct (child_at a P_TEST ijoin ifmt Hke ltac:(assumption) eq_refl Hne Hge) as [ge [Be [Te _]]].
+    destruct (children_plain gens ijoin ifmt Hkg ltac:(assumption) Hgg) as [gs [Bs Ts]].
+    exists ge, gs. cbn [C03_expr.build enter keeps_insub mapped node_builder pm insub injoin infmt]. rewrite Be, Bs.
+    split; [reflexivity|]. unfold genexp_inner. rewrite Te, Ts. cbn [rprint]. rewrite !sapp_assoc. reflexivity.
+Qed.
+
 Ltac rstart :=
-  split; [|try exact I]; intros direct isub ijoin ifmt Hd Hwf Hg; cbn in Hwf; split_andb; cbn [gaps] in Hg; split_nil.
+  split; [|try exact I]; intros direct isub ijoin ifmt Hd Hwf Hg; cbn [wfk] in Hwf; cbn [andb] in Hwf; split_andb; cbn [C03_spec.gaps] in Hg; split_nil.
 
-Ltac kid c IH g B R :=
-  destruct (child_at c _ _ _ IH ltac:(assumption) ltac:(eassumption) ltac:(eassumption)) as [g [B [_ R]]].
+Ltac kid c req IH g B T :=
+  destruct (child_at c req _ _ IH ltac:(assumption) ltac:(first [reflexivity | apply binop_lreq_le | apply binop_rreq_le | apply unop_prec_le]) ltac:(eassumption) ltac:(eassumption)) as [g [B [T _]]].
 
-Ltac bsimpl := cbn [build enter keeps_insub mapped node_builder pm insub injoin infmt].
-Ltac done_with g := exists g; split; [reflexivity|split; [exact I|]].
+Ltac bsimpl := cbn [C03_expr.build enter keeps_insub mapped node_builder pm insub injoin infmt].
+(* the built value is the witness: render equation left to prove, precedence and literal invariants by computation *)
+Ltac fin := eexists; split; [reflexivity|split; [|split; reflexivity]].
+
+Lemma mapo_app {A B} (f : A -> option B) l1 l2 r1 r2 :
+  mapo f l1 = Some r1 -> mapo f l2 = Some r2 -> mapo f (l1 ++ l2) = Some (r1 ++ r2).
+Proof.
+  revert r1. induction l1 as [|x l IH]; intros r1 H1 H2; simpl in *.
+  - inversion H1. exact H2.
+  - destruct (f x); [|discriminate]. destruct (mapo f l) eqn:E; [|discriminate]. inversion H1; subst.
+    rewrite (IH l0 eq_refl H2). reflexivity.
+Qed.
+
+(* what builds to a generator expression is one (possibly written as a string annotation) *)
+Lemma build_genexp_src : forall a c e' gens', pm c = NoParse -> build c a = Some (GGeneratorExp e' gens') -> is_genexp_src a = true.
+Proof.
+  induction a; intros c e' gens' Hm Hb; try reflexivity; cbn in Hb; try rewrite Hm in Hb;
+    repeat match type of Hb with
+           | (if ?b then _ else _) = _ => destruct b
+           | match ?x with _ => _ end = _ => destruct x eqn:?
+           end; try discriminate Hb.
+  - (* PParsed *) eapply IHa; [|exact Hb]. reflexivity.
+  - (* PAttribute *) inversion Hb as [Hb']. unfold attach_attr in Hb'. destruct g; discriminate Hb'.
+  - (* PKeyword *) destruct name; discriminate Hb.
+Qed.
 
 Theorem render_all : forall e, RenderP' e.
 Proof.
   apply pyexpr_ind'.
-  - (* PName *) intros id. rstart. bsimpl. eexists; split; [reflexivity|split; [exact I|]]. apply render_Name.
-  - (* PNum *) intros isint r. rstart. bsimpl. eexists; split; [reflexivity|split; [exact I|]].
-    rewrite render_Str. reflexivity.
-  - (* PConst *) intros r. rstart. bsimpl. eexists; split; [reflexivity|split; [exact I|]]. apply render_Str.
-  - (* PStr *) intros r raw parsed _. rstart. bsimpl. rewrite Heqb. eexists; split; [reflexivity|split; [exact I|]]. apply render_Str.
-  - (* PParsed *) intros p [IH _]. rstart. bsimpl. cbn [rprint]. apply IH; assumption.
-  - (* PAttribute *) intros v a [IH _]. rstart. 
-    destruct (child_at v _ _ _ IH ltac:(assumption) ltac:(eassumption) ltac:(eassumption)) as [g [B [Hne R]]].
-    bsimpl. rewrite B. destruct (render_attach g a Hne) as [Ra Hna].
-    eexists; split; [reflexivity|split; [exact Hna|]]. rewrite Ra, R. cbn [rprint]. rewrite Heqb. reflexivity.
-  - (* PBinOp *) intros l o r [IHl _] [IHr _]. rstart. kid l IHl gl Bl Rl. kid r IHr gr Br Rr.
-    bsimpl. rewrite Bl, Br, binop_table. eexists; split; [reflexivity|split; [exact I|]].
-    rewrite render_BinOp, Rl, Rr. reflexivity.
+  - (* PName *) intros id. rstart. bsimpl. fin. apply render_Name.
+  - (* PNum *) intros isint r. rstart. bsimpl. eexists; split; [reflexivity|split; [apply render_Str|split; [reflexivity|]]].
+    cbn [int_lit_inv is_int_lit]. apply eqb_prop in Hwf. rewrite Hwf. destruct isint; reflexivity.
+  - (* PConst *) intros r. rstart. bsimpl. eexists; split; [reflexivity|split; [apply render_Str|split; [reflexivity|]]].
+    cbn [int_lit_inv is_int_lit]. apply negb_true_iff in Hwf. exact Hwf.
+  - (* PStr *) intros r raw parsed _. rstart. bsimpl. rewrite Heqb.
+    eexists; split; [reflexivity|split; [apply render_Str|split; [reflexivity|]]].
+    cbn [int_lit_inv is_int_lit]. apply negb_true_iff in Hwf. exact Hwf.
+  - (* PParsed *) intros p [IH Hk]. split; [|exact Hk].
+    intros direct isub ijoin ifmt Hd Hwf Hg. cbn in Hwf. cbn [C03_spec.gaps] in Hg. bsimpl. cbn [rprint prec].
+    destruct (IH direct isub false false Hd Hwf Hg) as [g [B [R [P I0]]]]. exists g. repeat split; assumption.
+  - (* PAttribute *) intros v a [IH _]. rstart.
+    destruct (child_at v P_ATOM _ _ IH ltac:(assumption) eq_refl ltac:(eassumption) ltac:(eassumption)) as [g [B [T [R [P I0]]]]].
+    bsimpl. rewrite B. pose proof (build_nonempty _ _ _ _ _ B) as Hne.
+    eexists; split; [reflexivity|split; [|split; [destruct g; reflexivity|destruct g; reflexivity]]].
+    rewrite (render_attach _ _ Hne). cbn [rprint]. f_equal.
+    destruct g; cbn [attr_head int_lit_inv] in *; try (rewrite I0; exact T).
+    + (* a constant *) rewrite render_Str in R. subst s. rewrite I0.
+      destruct (is_int_lit v) eqn:Ei.
+      * (* an integer literal: parenthesised, or a known gap *)
+        match goal with H : _ && negb (fx_intattr fx) = false |- _ => cbn [andb] in H; apply negb_false_iff in H; rewrite H end.
+        reflexivity.
+      * rewrite andb_false_r. rewrite <- T. unfold C03_iter.rtext. cbn [ypar paren_if]. symmetry. apply render_Str.
+    + (* a chain *) rewrite I0. rewrite <- T. unfold C03_iter.rtext, ypar. cbn [gprec]. rewrite andb_false_r. reflexivity.
+  - (* PBinOp *) intros l o r [IHl _] [IHr _]. rstart. kid l (binop_lreq o) IHl gl Bl Tl. kid r (binop_rreq o) IHr gr Br Tr.
+    bsimpl. rewrite Bl, Br, binop_table. eexists; split; [reflexivity|split; [|split; [apply gbinop_prec_spec|reflexivity]]].
+    rewrite render_BinOp, gbin_lreq_spec, gbin_rreq_spec, Tl, Tr. reflexivity.
   - (* PBoolOp *) intros o vs IH. rstart.
-    destruct (children_at vs _ _ _ IH ltac:(assumption) Hg) as [gs [Bs Rs]].
-    bsimpl. rewrite Bs, boolop_table. eexists; split; [reflexivity|split; [exact I|]].
-    rewrite render_BoolOp, Rs. reflexivity.
-  - (* PUnaryOp *) intros o v [IH _]. rstart. kid v IH g B R.
-    bsimpl. rewrite B, unop_table. eexists; split; [reflexivity|split; [exact I|]]. rewrite render_UnaryOp, R. reflexivity.
-  - (* PCompare *) intros l ops cs [IHl _] IH. rstart. kid l IHl gl Bl Rl.
-    destruct (children_at cs _ _ _ IH ltac:(assumption) ltac:(eassumption)) as [gs [Bs Rs]].
-    bsimpl. rewrite Bl, Bs, cmpops_table. eexists; split; [reflexivity|split; [exact I|]].
+    destruct (children_at vs (S (boolop_prec o)) _ _ (fproj _ IH) ltac:(assumption) (boolop_req_le o) Hg) as [gs [Bs Ts]].
+    bsimpl. rewrite Bs, boolop_table. eexists; split; [reflexivity|split; [|split; [apply gboolop_prec_spec|reflexivity]]].
+    rewrite render_BoolOp, gboolop_prec_spec, Ts. reflexivity.
+  - (* PUnaryOp *) intros o v [IH _]. rstart. kid v (unop_prec o) IH g B T.
+    bsimpl. rewrite B, unop_table. eexists; split; [reflexivity|split; [|split; [apply gunop_prec_spec|reflexivity]]].
+    rewrite render_UnaryOp, gunop_prec_spec, T. reflexivity.
+  - (* PCompare *) intros l ops cs [IHl _] IH. rstart. kid l P_BOR IHl gl Bl Tl.
+    destruct (children_at cs P_BOR _ _ (fproj _ IH) ltac:(assumption) eq_refl ltac:(eassumption)) as [gs [Bs Ts]].
+    bsimpl. rewrite Bl, Bs, cmpops_table. fin.
     match goal with H : (List.length ops =? List.length cs) = true |- _ => apply Nat.eqb_eq in H; rename H into Hlen end.
     rewrite render_Compare by (rewrite map_length, (mapo_length _ _ _ Bs); exact Hlen).
-    rewrite Rl, Rs. cbn [rprint]. f_equal. apply compare_text.
+    rewrite Tl, Ts. cbn [rprint]. f_equal. apply compare_text.
     + match goal with H : negb (is_nil ops) = true |- _ => destruct ops; [discriminate H|reflexivity] end.
     + rewrite map_length. exact Hlen.
-  - (* PCall *) intros fn args kws [IHf _] IHa IHk. rstart. kid fn IHf gf Bf Rf.
-    destruct (children_at args _ _ _ IHa ltac:(assumption) ltac:(eassumption)) as [ga [Ba Ra]].
-    destruct (children_plain kws _ _ IHk ltac:(assumption) ltac:(eassumption)) as [gk [Bk Rk]].
-    bsimpl. rewrite Bf, Ba, Bk. eexists; split; [reflexivity|split; [exact I|]].
-    rewrite render_Call, Rf, map_app, Ra, Rk. reflexivity.
-  - (* PKeyword *) intros n v [IH _]. rstart. kid v IH g B R.
-    bsimpl. rewrite B. destruct n; (eexists; split; [reflexivity|split; [exact I|]]).
-    + rewrite render_Keyword, R. reflexivity.
-    + rewrite render_VarKeyword, R. reflexivity.
-  - (* PSubscript *) intros v lit sl [IHv _] [IHs _]. rstart. kid v IHv gv Bv Rv.
-    destruct (IHs true true ijoin ifmt eq_refl ltac:(assumption) ltac:(assumption)) as [gs [Bs [_ Rs]]].
-    bsimpl. rewrite Bv, Bs. eexists; split; [reflexivity|split; [exact I|]].
-    rewrite render_Subscript, Rv, Rs. cbn [rprint].
-    match goal with H : need P_TEST sl = [] |- _ => rewrite (need_nil _ _ H) end. reflexivity.
+  - (* PCall *) intros fn args kws [IHf _] IHa IHk. rstart. kid fn P_ATOM IHf gf Bf Tf.
+    destruct (sole_genexp (args ++ kws)) eqn:Esole; split_nil.
+    + (* a generator expression as the only argument *)
+      assert (Hone : exists a, args ++ kws = [a] /\ is_genexp_src a = true /\ RenderP' a /\ wfk KExpr a = true
+                               /\ (if fx_genexp fx then gaps false false ijoin ifmt a else tl (gaps false false ijoin ifmt a)) = []).
+      { unfold sole_genexp in Esole.
+        destruct args as [|a [|a' r]], kws as [|k [|k' r']]; try discriminate Esole; cbn [app] in *.
+        - exists k. inversion IHk; subst. cbn [forallb flat_map app] in *. split_andb. rewrite app_nil_r in *. (split; [reflexivity|split; [assumption|split; [assumption|split; assumption]]]).
+        - exists a. inversion IHa; subst. cbn [forallb flat_map app] in *. split_andb. rewrite ?app_nil_r in *. (split; [reflexivity|split; [assumption|split; [assumption|split; assumption]]]). }
+      destruct Hone as [a [Ea [Hsa [[_ Hka] [Hwa Hga]]]]].
+      destruct (genexp_at a Hsa Hka false false ijoin ifmt Hwa Hga) as [e' [gens' [Ba Ta]]].
+      assert (Bargs : exists a' k', mapo (build (mkCtx NoParse false ijoin ifmt)) args = Some a'
+                                  /\ mapo (build (mkCtx NoParse false ijoin ifmt)) kws = Some k' /\ (a' ++ k' = [GGeneratorExp e' gens'])%list).
+      { destruct args as [|x [|x' r]], kws as [|k [|k' r']]; try discriminate Ea; cbn [app] in Ea; inversion Ea; subst.
+        - exists [], [GGeneratorExp e' gens']. cbn [mapo]. rewrite Ba. repeat split; reflexivity.
+        - exists [GGeneratorExp e' gens'], []. cbn [mapo]. rewrite Ba. repeat split; reflexivity. }
+      destruct Bargs as [a' [k' [Ba' [Bk' Eak]]]].
+      bsimpl. rewrite Bf, Ba', Bk', Eak. fin.
+      rewrite render_Call, call_args_genexp, Tf. cbn [rprint]. rewrite Esole. f_equal.
+      rewrite <- map_app, Ea. cbn [map sconcat fold_right]. rewrite sapp_nil_r. exact Ta.
+    + destruct (children_at args P_TEST _ _ (fproj _ IHa) ltac:(assumption) eq_refl ltac:(eassumption)) as [ga [Ba Ta]].
+      destruct (children_at kws P_TEST _ _ (fproj _ IHk) ltac:(assumption) eq_refl ltac:(eassumption)) as [gk [Bk Tk]].
+      bsimpl. rewrite Bf, Ba, Bk. fin.
+      rewrite render_Call, Tf. cbn [rprint]. rewrite Esole. f_equal.
+      rewrite call_args_general; [rewrite map_app, Ta, Tk; reflexivity|].
+      (* the built list is not a lone generator expression *)
+      pose proof (mapo_length _ _ _ Ba) as La. pose proof (mapo_length _ _ _ Bk) as Lk.
+      destruct (ga ++ gk) as [|g0 r0] eqn:Egk; [exact I|]. destruct g0; try exact I. destruct r0; [|exact I]. exfalso.
+      unfold sole_genexp in Esole.
+      destruct ga as [|x [|x' r]], gk as [|y [|y' r']]; try discriminate Egk; cbn [app] in Egk; inversion Egk; subst.
+      * destruct args; [|discriminate La]. destruct kws as [|k [|? ?]]; try discriminate Lk. cbn [app] in Esole.
+        cbn [mapo] in Bk. destruct (build _ k) eqn:Ek; [|discriminate Bk]. inversion Bk; subst.
+        rewrite (build_genexp_src k (mkCtx NoParse false ijoin ifmt) _ _ eq_refl Ek) in Esole. discriminate Esole.
+      * destruct kws; [|discriminate Lk]. destruct args as [|k [|? ?]]; try discriminate La. cbn [app] in Esole.
+        cbn [mapo] in Ba. destruct (build _ k) eqn:Ek; [|discriminate Ba]. inversion Ba; subst.
+        rewrite (build_genexp_src k (mkCtx NoParse false ijoin ifmt) _ _ eq_refl Ek) in Esole. discriminate Esole.
+  - (* PKeyword *) intros n v [IH _]. rstart. kid v P_TEST IH g B T.
+    bsimpl. rewrite B. destruct n; fin.
+    + rewrite render_Keyword, T. reflexivity.
+    + rewrite render_VarKeyword, T. reflexivity.
+  - (* PSubscript *) intros v lit sl [IHv _] [IHs _]. rstart. kid v P_ATOM IHv gv Bv Tv.
+    destruct (IHs true true ijoin ifmt eq_refl ltac:(assumption) ltac:(assumption)) as [gs [Bs [Rs [Ps _]]]].
+    bsimpl. rewrite Bv, Bs. fin.
+    rewrite render_Subscript, Tv. cbn [rprint]. rewrite (rtext_at gs sl P_TEST _ Rs Ps eq_refl ltac:(assumption)). reflexivity.
   - (* PSlice *) intros lo up st IHl IHu IHs. rstart.
-    destruct (child_opt lo _ _ _ IHl ltac:(assumption) ltac:(eassumption)) as [glo [Blo Rlo]].
-    destruct (child_opt up _ _ _ IHu ltac:(assumption) ltac:(eassumption)) as [gup [Bup Rup]].
-    destruct (child_opt st _ _ _ IHs ltac:(assumption) ltac:(eassumption)) as [gst [Bst Rst]].
-    bsimpl. rewrite Blo, Bup, Bst. eexists; split; [reflexivity|split; [exact I|]].
+    destruct (child_opt lo P_TEST _ _ IHl ltac:(assumption) eq_refl ltac:(eassumption)) as [glo [Blo Rlo]].
+    destruct (child_opt up P_TEST _ _ IHu ltac:(assumption) eq_refl ltac:(eassumption)) as [gup [Bup Rup]].
+    destruct (child_opt st P_TEST _ _ IHs ltac:(assumption) eq_refl ltac:(eassumption)) as [gst [Bst Rst]].
+    bsimpl. rewrite Blo, Bup, Bst. fin.
     rewrite render_Slice. cbn [rprint].
     destruct lo, glo; try contradiction; destruct up, gup; try contradiction; destruct st, gst; try contradiction;
       cbn [optstr]; rewrite ?Rlo, ?Rup, ?Rst; reflexivity.
   - (* PTuple *) intros es IH. rstart.
-    destruct (children_at es _ _ _ IH ltac:(assumption) ltac:(eassumption)) as [gs [Bs Rs]].
-    bsimpl. rewrite Bs. eexists; split; [reflexivity|split; [exact I|]].
-    rewrite render_Tuple. cbn [rprint]. cbv zeta. rewrite Rs.
+    destruct (children_at es P_TEST _ _ (fproj _ IH) ltac:(assumption) eq_refl ltac:(eassumption)) as [gs [Bs Ts]].
+    bsimpl. rewrite Bs. fin.
+    rewrite render_Tuple. cbn [rprint]. cbv zeta. rewrite Ts.
     assert (Hone : (match gs with [_] => "," | _ => "" end)%string = (match es with [_] => "," | _ => "" end)%string).
     { pose proof (mapo_length _ _ _ Bs) as Hl. destruct gs as [|? [|? ?]], es as [|? [|? ?]]; try discriminate Hl; reflexivity. }
     rewrite Hone.
-    assert (Himp : isub = direct && negb (is_nil es)).
-    { subst isub. destruct direct, (is_nil es); try reflexivity; discriminate. }
-    rewrite <- Himp. reflexivity.
+    assert (Hn : is_nil gs = is_nil es).
+    { pose proof (mapo_length _ _ _ Bs) as Hl. destruct gs, es; try discriminate Hl; reflexivity. }
+    assert (Himp : tuple_par fx gs isub = negb (direct && negb (is_nil es))).
+    { unfold tuple_par. rewrite Hn. subst isub.
+      match goal with H : direct && is_nil es && negb (fx_tuple0 fx) = false |- _ =>
+        destruct direct, (is_nil es), (fx_tuple0 fx); try reflexivity; discriminate H end. }
+    rewrite Himp. destruct (direct && negb (is_nil es)); reflexivity.
   - (* PList *) intros es IH. rstart.
-    destruct (children_at es _ _ _ IH ltac:(assumption) Hg) as [gs [Bs Rs]].
-    bsimpl. rewrite Bs. eexists; split; [reflexivity|split; [exact I|]]. rewrite render_List, Rs. reflexivity.
+    destruct (children_at es P_TEST _ _ (fproj _ IH) ltac:(assumption) eq_refl Hg) as [gs [Bs Ts]].
+    bsimpl. rewrite Bs. fin. rewrite render_List, Ts. reflexivity.
   - (* PSet *) intros es IH. rstart.
-    destruct (children_at es _ _ _ IH ltac:(assumption) Hg) as [gs [Bs Rs]].
-    bsimpl. rewrite Bs. eexists; split; [reflexivity|split; [exact I|]]. rewrite render_Set, Rs. reflexivity.
+    destruct (children_at es P_TEST _ _ (fproj _ IH) ltac:(assumption) eq_refl Hg) as [gs [Bs Ts]].
+    bsimpl. rewrite Bs. fin. rewrite render_Set, Ts. reflexivity.
   - (* PDict *) intros items IH. rstart.
     destruct (dict_items_at items _ _ IH ltac:(assumption) Hg) as [its [Bi Ri]]. unfold build_item in Bi.
-    bsimpl. rewrite Bi. eexists; split; [reflexivity|split; [exact I|]].
-    rewrite render_Dict. change (fun kv : option gexpr * gexpr => ((match fst kv with None => "**" | Some k => render k ++ ": " end) ++ render (snd kv))%string) with dtxt.
-    rewrite Ri. reflexivity.
+    bsimpl. rewrite Bi. fin. rewrite render_Dict, Ri. reflexivity.
   - (* PDictItem *) intros k v Hk [Hv _]. split; [intros direct isub ijoin ifmt Hd Hwf; discriminate Hwf|].
-    split; [destruct k; simpl in *; [destruct Hk; assumption|exact I]|assumption].
-  - (* PIfExp *) intros b t o [IHb _] [IHt _] [IHo _]. rstart. kid b IHb gb Bb Rb. kid t IHt gtt Bt Rt. kid o IHo go Bo Ro.
-    bsimpl. rewrite Bb, Bt, Bo. eexists; split; [reflexivity|split; [exact I|]]. rewrite render_IfExp, Rb, Rt, Ro. reflexivity.
-  - (* PLambda *) intros po pk vp ko vk body IHpo IHpk IHko [IHb _]. rstart. kid body IHb gb Bb Rb.
+    cbn [kidsR]. split; [destruct k; simpl in *; [destruct Hk; assumption|exact I]|assumption].
+  - (* PIfExp *) intros b t o [IHb _] [IHt _] [IHo _]. rstart. kid b P_OR IHb gb Bb Tb. kid t P_OR IHt gtt Bt Tt. kid o P_TEST IHo go Bo To.
+    bsimpl. rewrite Bb, Bt, Bo. fin. rewrite render_IfExp, Tb, Tt, To. reflexivity.
+  - (* PLambda *) intros po pk vp ko vk body IHpo IHpk IHko [IHb _]. rstart. kid body P_TEST IHb gb Bb Tb.
     destruct (params_at PO po _ _ eq_refl IHpo ltac:(assumption) ltac:(eassumption)) as [a [Ba Ta]].
-    destruct (params_at PK pk _ _ eq_refl IHpk ltac:(assumption) ltac:(eassumption)) as [b [Bb' Tb]].
+    destruct (params_at PK pk _ _ eq_refl IHpk ltac:(assumption) ltac:(eassumption)) as [b [Bb' Tb']].
     destruct (params_at KO ko _ _ eq_refl IHko ltac:(assumption) ltac:(eassumption)) as [d [Bd Td]].
     pose proof (par_of_allk _ _ _ Ba) as Ka. pose proof (par_of_allk _ _ _ Bb') as Kb. pose proof (par_of_allk _ _ _ Bd) as Kd.
-    unfold par_of, gpar in Ba, Bb', Bd. bsimpl. rewrite Ba, Bb', Bd, Bb.
-    eexists; split; [reflexivity|split; [exact I|]].
+    unfold par_of, gpar in Ba, Bb', Bd. bsimpl. rewrite Ba, Bb', Bd, Bb. fin.
     change (match vp with Some n => [(n, VP, @None gexpr)] | None => [] end) with (vpl vp).
     change (match vk with Some n => [(n, VK, @None gexpr)] | None => [] end) with (vkl vk).
-    rewrite render_Lambda, lam_params_chunks, Rb.
     assert (Ea : is_nil a = is_nil po) by (apply (is_nil_of_map_eq _ _ _ _ Ta)).
-    assert (Eb : is_nil b = is_nil pk) by (apply (is_nil_of_map_eq _ _ _ _ Tb)).
+    assert (Eb : is_nil b = is_nil pk) by (apply (is_nil_of_map_eq _ _ _ _ Tb')).
     assert (Ed : is_nil d = is_nil ko) by (apply (is_nil_of_map_eq _ _ _ _ Td)).
-    rewrite lambda_chunks_entries; try assumption.
-    2:{ rewrite Ea, Eb, Ed. match goal with H : lambda_gap po pk vp ko = false |- _ => exact H end. }
-    rewrite <- lam_entries_nil. unfold lam_entries. rewrite Ta, Tb, Td, Ea, Ed. cbn [rprint]. cbv zeta.
+    rewrite render_Lambda, Tb, lam_items_entries; try assumption.
+    2:{ intros Hfl. rewrite Ea, Eb, Ed.
+        match goal with H : lambda_gap po pk vp ko && negb (fx_lambda fx) = false |- _ =>
+          rewrite Hfl in H; cbn [negb] in H; rewrite andb_true_r in H; exact H end. }
+    rewrite <- lam_entries_nil. unfold lam_entries. rewrite Ta, Tb', Td, Ea, Ed. cbn [rprint]. cbv zeta.
     match goal with |- context [is_nil ?l] => destruct (is_nil l) eqn:En end.
     + destruct (map (rprint false) po), (if is_nil po then [] else ["/"]), (map (rprint false) pk); try discriminate En.
       cbn [app] in *. destruct vp; [discriminate En|]. destruct (is_nil ko); [|discriminate En].
       destruct (map (rprint false) ko); [|discriminate En]. destruct vk; [discriminate En|]. reflexivity.
     + rewrite !sapp_assoc. reflexivity.
   - (* PParam *) intros n d Hd. split; [intros direct isub ijoin ifmt Hd' Hwf; discriminate Hwf|].
-    destruct d; simpl in *; [destruct Hd; assumption|exact I].
-  - (* PNamedExpr *) intros t v [IHt _] [IHv _]. rstart. kid v IHv gv Bv Rv.
-    destruct (IHt false false ijoin ifmt eq_refl ltac:(assumption) ltac:(assumption)) as [gt' [Bt [_ Rt]]].
-    bsimpl. rewrite Bt, Bv. eexists; split; [reflexivity|split; [exact I|]]. rewrite render_NamedExpr, Rt, Rv. reflexivity.
-  - (* PStarred *) intros v [IH _]. rstart. kid v IH g B R.
-    bsimpl. rewrite B. eexists; split; [reflexivity|split; [exact I|]]. rewrite render_VarPositional, R. reflexivity.
-  - (* PListComp *) intros e gens [IHe _] IH. rstart. kid e IHe ge1 Be Re.
-    destruct (children_plain gens _ _ IH ltac:(assumption) ltac:(eassumption)) as [gs [Bs Rs]].
-    bsimpl. rewrite Be, Bs. eexists; split; [reflexivity|split; [exact I|]]. rewrite render_ListComp, Re, Rs. reflexivity.
-  - (* PSetComp *) intros e gens [IHe _] IH. rstart. kid e IHe ge1 Be Re.
-    destruct (children_plain gens _ _ IH ltac:(assumption) ltac:(eassumption)) as [gs [Bs Rs]].
-    bsimpl. rewrite Be, Bs. eexists; split; [reflexivity|split; [exact I|]]. rewrite render_SetComp, Re, Rs. reflexivity.
-  - (* PGeneratorExp *) intros e gens [IHe _] IH. rstart. kid e IHe ge1 Be Re.
-    destruct (children_plain gens _ _ IH ltac:(assumption) ltac:(eassumption)) as [gs [Bs Rs]].
-    bsimpl. rewrite Be, Bs. eexists; split; [reflexivity|split; [exact I|]]. rewrite render_GeneratorExp, Re, Rs. reflexivity.
-  - (* PDictComp *) intros k v gens [IHk _] [IHv _] IH. rstart. kid k IHk gk Bk Rk. kid v IHv gv Bv Rv.
-    destruct (children_plain gens _ _ IH ltac:(assumption) ltac:(eassumption)) as [gs [Bs Rs]].
-    bsimpl. rewrite Bk, Bv, Bs. eexists; split; [reflexivity|split; [exact I|]]. rewrite render_DictComp, Rk, Rv, Rs. reflexivity.
-  - (* PComprehension *) intros t it ifs a [IHt _] [IHi _] IH. rstart. kid t IHt gt' Bt Rt. kid it IHi gi Bi Ri.
-    destruct (children_at ifs _ _ _ IH ltac:(assumption) ltac:(eassumption)) as [gs [Bs Rs]].
-    bsimpl. rewrite Bt, Bi, Bs. eexists; split; [reflexivity|split; [exact I|]].
-    rewrite render_Comprehension, Rt, Ri. cbn [rprint].
-    rewrite <- (is_nil_map render gs). rewrite (sjoin_prefix " if " (map render gs)). rewrite Rs, map_map. reflexivity.
-  - (* PJoinedStr *) intros vs IH. rstart.
-    assert (Hx : exists gs, mapo (build (mkCtx NoParse false true ifmt)) vs = Some gs /\ map render gs = map (fun c => match c with PStr _ raw _ => esc_braces raw | _ => rprint false c end) vs).
-    { refine (mapo_render _ render _ _ vs _ Hg). apply forallb_Forall in Hwf.
-      eapply Forall_impl2; [|exact IH|exact Hwf]. intros c [Hc _] Hwc Hgc. simpl in Hwc.
-      destruct c; try (destruct (Hc false false true ifmt eq_refl Hwc Hgc) as [g [Bg [_ Rg]]]; exists g; split; assumption).
-      - (* literal text *) destruct ifmt; [discriminate Hgc|]. cbn [orb] in Hgc.
-        destruct (has_brace raw) eqn:Hb; [discriminate Hgc|]. cbn [build enter keeps_insub mapped node_builder injoin infmt andb negb].
-        eexists; split; [reflexivity|]. rewrite render_Str, esc_braces_id by assumption. reflexivity.
-      - (* PParsed *) discriminate Hgc. }
-    destruct Hx as [gs [Bs Rs]]. bsimpl. rewrite Bs. eexists; split; [reflexivity|split; [exact I|]].
-    rewrite render_JoinedStr, Rs. reflexivity.
-  - (* PFormattedValue *) intros v conv spec [IH _] _. rstart. kid v IH g B R.
-    bsimpl. rewrite B. eexists; split; [reflexivity|split; [exact I|]].
-    rewrite render_Formatted, R. cbn [rprint]. cbv zeta.
-    match goal with H : starts_brace (ref_at P_OR v) = false |- _ => unfold ref_at in H; rewrite H end. reflexivity.
+    cbn [kidsR]. destruct d; simpl in *; [destruct Hd; assumption|exact I].
+  - (* PNamedExpr *) intros t v [IHt _] [IHv _]. rstart. kid t P_ATOM IHt gt' Bt Tt. kid v P_TEST IHv gv Bv Tv.
+    bsimpl. rewrite Bt, Bv. fin. rewrite render_NamedExpr, Tt, Tv. reflexivity.
+  - (* PStarred *) intros v [IH _]. rstart. kid v P_BOR IH g B T.
+    bsimpl. rewrite B. fin. rewrite render_VarPositional, T. reflexivity.
+  - (* PListComp *) intros e gens [IHe _] IH. rstart. kid e P_TEST IHe ge1 Be Te.
+    destruct (children_plain gens _ _ (fproj _ IH) ltac:(assumption) ltac:(eassumption)) as [gs [Bs Ts]].
+    bsimpl. rewrite Be, Bs. fin. rewrite render_ListComp, Te, Ts. reflexivity.
+  - (* PSetComp *) intros e gens [IHe _] IH. rstart. kid e P_TEST IHe ge1 Be Te.
+    destruct (children_plain gens _ _ (fproj _ IH) ltac:(assumption) ltac:(eassumption)) as [gs [Bs Ts]].
+    bsimpl. rewrite Be, Bs. fin. rewrite render_SetComp, Te, Ts. reflexivity.
+  - (* PGeneratorExp *) intros e gens [IHe _] IH. split; [|cbn [kidsR]; split; [exact IHe|exact (fproj _ IH)]].
+    intros direct isub ijoin ifmt Hd Hwf Hg.
+    assert (Hfx : fx_genexp fx = true).
+    { cbn [C03_spec.gaps] in Hg. destruct (fx_genexp fx); [reflexivity|discriminate Hg]. }
+    destruct (genexp_at (PGeneratorExp e gens) eq_refl (conj IHe (fproj _ IH)) direct isub ijoin ifmt Hwf) as [e' [gens' [B T]]].
+    { rewrite Hfx. exact Hg. }
+    exists (GGeneratorExp e' gens'). split; [exact B|split; [|split; reflexivity]].
+    rewrite render_GeneratorExp, Hfx. exact T.
+  - (* PDictComp *) intros k v gens [IHk _] [IHv _] IH. rstart. kid k P_TEST IHk gk Bk Tk. kid v P_TEST IHv gv Bv Tv.
+    destruct (children_plain gens _ _ (fproj _ IH) ltac:(assumption) ltac:(eassumption)) as [gs [Bs Ts]].
+    bsimpl. rewrite Bk, Bv, Bs. fin. rewrite render_DictComp, Tk, Tv, Ts. reflexivity.
+  - (* PComprehension *) intros t it ifs a [IHt _] [IHi _] IH. rstart. kid t P_BOR IHt gt' Bt Tt. kid it P_OR IHi gi Bi Ti.
+    destruct (children_at ifs P_OR _ _ (fproj _ IH) ltac:(assumption) eq_refl ltac:(eassumption)) as [gs [Bs Ts]].
+    bsimpl. rewrite Bt, Bi, Bs. fin.
+    rewrite render_Comprehension, Tt, Ti. cbn [rprint].
+    rewrite <- (is_nil_map (rtext P_OR) gs). rewrite (sjoin_prefix " if " (map (rtext P_OR) gs)). rewrite Ts, map_map. reflexivity.
+  - (* PJoinedStr *) intros vs IH. split; [|cbn [kidsR]; exact (fproj _ IH)].
+    intros direct isub ijoin ifmt Hd Hwf Hg. cbn in Hwf. cbn [C03_spec.gaps] in Hg.
+    destruct (fparts_at vs (if fx_fnest fx then false else ifmt) (fproj _ IH) Hwf Hg) as [gs [Bs Ts]].
+    bsimpl. rewrite Bs. fin. rewrite render_JoinedStr, Ts. reflexivity.
+  - (* PFormattedValue *) intros v conv spec [IH _] IHsp. rstart.
+    destruct (child_at v P_OR _ _ IH ltac:(assumption) eq_refl ltac:(eassumption) ltac:(eassumption)) as [g [B [T [R [P _]]]]].
+    bsimpl. rewrite B.
+    (* the brace glue is the reference printer's *)
+    assert (Hglue : glue_text g = (if starts_brace (paren_if (Nat.ltb (prec v) P_OR) (rprint false v)) then " " else "")%string).
+    { unfold glue_text. rewrite P, R.
+      destruct (fx_fglue fx) eqn:Efg.
+      - cbn [andb]. destruct (prec v <? P_OR) eqn:El.
+        + apply Nat.ltb_lt in El. assert (El' : Nat.leb P_OR (prec v) = false) by (apply Nat.leb_gt; exact El).
+          rewrite El'. reflexivity.
+        + apply Nat.ltb_ge in El. assert (El' : Nat.leb P_OR (prec v) = true) by (apply Nat.leb_le; exact El).
+          rewrite El'. reflexivity.
+      - cbn [andb]. match goal with H : negb false && starts_brace (ref_at P_OR v) = false |- _ =>
+          cbn [negb andb] in H; unfold ref_at in H; rewrite H; reflexivity end. }
+    destruct (fx_fconv fx) eqn:Efc.
+    + (* conversion and format spec are stored *)
+      destruct spec as [sp|].
+      * destruct sp as [| | | | | | | | | | | | | | | | | | | | | | | | | | | | |fvs| | | |];
+          try (match goal with H : (_ :: _) = [] |- _ => discriminate H | H : _ ++ (_ :: _) = [] |- _ => apply app_eq_nil in H; destruct H; discriminate end).
+        cbn [optb]. simpl in IHsp. destruct IHsp as [_ IHk]. cbn [kidsR] in IHk.
+        match goal with H : wfk KExpr (PJoinedStr fvs) = true |- _ => cbn in H; rename H into Hwsp end.
+        match goal with H : flat_map _ fvs = [] |- _ => rename H into Hgsp end.
+        destruct (fparts_at fvs false IHk Hwsp Hgsp) as [gs [Bs Ts]].
+        bsimpl. destruct (fx_fnest fx); rewrite Bs; fin;
+          rewrite render_Formatted, Hglue, T; cbn [rprint spec_text]; cbv zeta; rewrite Ts, ?sapp_assoc; reflexivity.
+      * cbn [optb]. fin. rewrite render_Formatted, Hglue, T. cbn [rprint spec_text]. cbv zeta. rewrite ?sapp_assoc. reflexivity.
+    + (* dropped by the unrepaired builder: a gap unless absent *)
+      match goal with H : negb false && _ = false |- _ => cbn [negb andb] in H; rename H into Ecs end.
+      apply orb_false_iff in Ecs. destruct Ecs as [Ec Es]. apply negb_false_iff in Ec. apply Z.eqb_eq in Ec. subst conv.
+      destruct spec; [discriminate Es|]. fin.
+      rewrite render_Formatted, Hglue, T. cbn [rprint spec_text conv_text]. cbv zeta. rewrite ?sapp_assoc. reflexivity.
   - (* PYield *) intros v IH. rstart.
-    destruct (child_opt v _ _ _ IH ltac:(assumption) Hg) as [gv [Bv Rv]].
-    bsimpl. rewrite Bv. eexists; split; [reflexivity|split; [exact I|]].
+    destruct (child_opt v P_TEST _ _ IH ltac:(assumption) eq_refl Hg) as [gv [Bv Rv]].
+    bsimpl. rewrite Bv. fin.
     rewrite render_Yield. cbn [rprint]. destruct v, gv; try contradiction; [rewrite Rv|]; reflexivity.
-  - (* PYieldFrom *) intros v [IH _]. rstart. kid v IH g B R.
-    bsimpl. rewrite B. eexists; split; [reflexivity|split; [exact I|]]. rewrite render_YieldFrom, R. reflexivity.
+  - (* PYieldFrom *) intros v [IH _]. rstart. kid v P_TEST IH g B T.
+    bsimpl. rewrite B. fin. rewrite render_YieldFrom, T. reflexivity.
   - (* PAwait: gap family 10 *) intros v _. split; [|exact I].
-    intros direct isub ijoin ifmt Hd Hwf Hg. cbn [gaps] in Hg. discriminate Hg.
+    intros direct isub ijoin ifmt Hd Hwf Hg. cbn [C03_spec.gaps] in Hg. discriminate Hg.
 Qed.
 
 (* ---------- the property-level statements ---------- *)
 Theorem render_eq_reference_modulo_known (top : nat) (e : pyexpr) :
-  wf e = true -> known_gap top e = false ->
+  wf e = true -> known_gap fx top e = false ->
   exists g, build ctx0 e = Some g /\ render g = ref_top top e.
 Proof.
   intros Hw Hk. unfold known_gap, gaps_top in Hk. apply negb_false_iff in Hk.
-  destruct (need top e ++ gaps false false false false e) eqn:E; [|discriminate Hk].
+  destruct (need_top top e ++ gaps false false false false e) eqn:E; [|discriminate Hk].
   apply app_eq_nil in E. destruct E as [Hn Hg].
-  destruct (child_at e top false false (proj1 (render_all e)) Hw Hn Hg) as [g [B [_ R]]].
-  exists g. split; [exact B|exact R].
+  destruct (proj1 (render_all e) false false false false eq_refl Hw Hg) as [g [B [R _]]].
+  exists g. split; [exact B|]. rewrite R. unfold ref_top, ref_at. unfold need_top in Hn.
+  destruct (prec e <? top); [discriminate Hn|reflexivity].
 Qed.
 
 (* with string parsing: the text is the reference text of the tree in which the rule's strings are code *)
 Theorem render_eq_reference_with_strings (top : nat) (m : pmode) (e : pyexpr) :
-  no_parsed e = true -> wf (subst m false false e) = true -> known_gap top (subst m false false e) = false ->
-  exists g, build (mkCtx m false false false) e = Some g /\ render g = ref_top top (subst m false false e).
+  rule_ok (fx_litroot fx) e = true -> wf (C03_spec.subst fx env m false false e) = true ->
+  known_gap fx top (C03_spec.subst fx env m false false e) = false ->
+  exists g, build (mkCtx m false false false) e = Some g /\ render g = ref_top top (C03_spec.subst fx env m false false e).
 Proof.
-  intros Hn Hw Hk. rewrite (string_annotation_rule e (mkCtx m false false false) Hn).
+  intros Hn Hw Hk. rewrite (string_annotation_rule fx env e (mkCtx m false false false) Hn).
   exact (render_eq_reference_modulo_known top _ Hw Hk).
 Qed.
+
+End Render.
